@@ -14,6 +14,11 @@
 (*   the direct reader and through the sniffer, under every capacity and    *)
 (*   chunking (they are not arguments of the expectation); cut after `cut`  *)
 (*   bytes: the FASTQ records that pass check() are a prefix of cfg.recs.   *)
+(*   sniff_at: the sniffer on a seekable source positioned at offset `off`   *)
+(*   (reached by seek or by consuming bytes): when bytes[off..] is a layout  *)
+(*   of cfg.recs (lay = 2, any prefix in front) the kind must be cfg.kind,   *)
+(*   get_kind_seek must leave the position at `off` (also when repeated)     *)
+(*   and the selected reader must yield exactly cfg.recs.                    *)
 (* Exact (machine layer / exact parser definition, DRIFT):                  *)
 (*   the writers' bytes = Wire(kind, recs, wrap, LF); for ASCII input the   *)
 (*   outcome sequence (records AND error kinds, also on garbage) =          *)
@@ -58,12 +63,31 @@ ParseOk(cfg, s, a, r) ==
     /\ a.p \in {"fasta", "fastq", "either"}
     /\ a.lay # 0 => LayoutClause(cfg, s, a, r)
 
+SniffAtOk(cfg, a, r) ==
+    /\ r.st = "ok" /\ r.capped = 0
+    /\ a.off >= 0 /\ a.off <= Len(a.b)
+    /\ Len(r.items) <= Len(a.b) + 2
+    /\ a.lay # 0 =>
+          /\ a.lay = 2 /\ ValidCfg(cfg, a.wrap) /\ a.crlf \in {0, 1} /\ a.cut < 0
+          /\ Suffix(a.b, a.off) = Wire(cfg.kind, cfg.recs, a.wrap, NL(a.crlf))
+          /\ cfg.recs # << >> =>
+                /\ r.kind = cfg.kind /\ r.kind2 = cfg.kind                   \* the matching parser
+                /\ r.pos = a.off /\ r.pos2 = a.off                           \* the source stays where it was
+                /\ r.items = ItemsOf(cfg.kind, cfg.recs)                      \* the records of bytes[off..]
+
+SniffAtExact(a, r) ==
+    LET suf == Suffix(a.b, a.off) IN
+    /\ r.pos = a.off /\ r.pos2 = a.off
+    /\ r.kind = SniffKind(suf) /\ r.kind2 = r.kind
+    /\ IsAscii(suf) => r.items = ItemsAfterSniff(a.b, a.off)
+
 Explains(cfg, s, e) ==
     LET c == e.c  r == e.r  a == e.c.a IN
     CASE c.op = "write"   -> r.st = "ok" /\ ValidCfg(cfg, a.wrap)
       [] c.op = "display" -> r.st = "ok" /\ ValidCfg(cfg, 0)
       [] c.op = "parse"   -> ParseOk(cfg, s, a, r)
       [] c.op = "sniff"   -> r.st = "ok"
+      [] c.op = "sniff_at" -> SniffAtOk(cfg, a, r)
       [] OTHER -> FALSE
 
 ParseExact(cfg, a, r) ==
@@ -81,6 +105,7 @@ Exact(cfg, e) ==
       [] c.op = "display" -> r.b = Wire(cfg.kind, cfg.recs, 0, NL(0))
       [] c.op = "parse"   -> ParseExact(cfg, a, r)
       [] c.op = "sniff"   -> r.kind = SniffKind(a.b) /\ r.pos = 0
+      [] c.op = "sniff_at" -> SniffAtExact(a, r)
       [] OTHER -> TRUE
 
 After(s, e) == IF e.c.op = "write" THEN e.r.b ELSE s
